@@ -28,6 +28,8 @@ class BuiltinsMixin:
             if v.items is not None:
                 return INT(len(v.items))
             return INT(v.p) if v.p is not None else INT()
+        if v.k == 'set':
+            return INT(len(v.items)) if v.items is not None else INT()
         if v.k == 'arr':
             if v.dims is not None and len(v.dims) >= 1 and v.dims[0] is not None:
                 return INT(v.dims[0])
@@ -203,6 +205,11 @@ class BuiltinsMixin:
         return d
 
     def b_set(self, pos, kw, node, env):
+        if not pos:
+            return self.I.make_set([])
+        v = pos[0]
+        if v.k in ('list', 'tuple', 'iter', 'set') and v.items is not None:
+            return self.I.make_set(v.items)
         return AV('set')
 
     def b_zip(self, pos, kw, node, env):
@@ -341,9 +348,19 @@ class BuiltinsMixin:
         return TUPLE([INT(), INT()])
 
     def b_map(self, pos, kw, node, env):
+        # map(f, seq) over a sequence of known items: one call per item
+        if len(pos) == 2 and pos[1].k in ('list', 'tuple', 'iter') and \
+                pos[1].items is not None and len(pos[1].items) <= 16:
+            try:
+                return AV('iter', items=[
+                    self.I.call(pos[0], [x], {}, node, env)
+                    for x in pos[1].items])
+            except Exception:
+                pass
         return AV('iter', elem=TOP())
 
-    b_filter = b_map
+    def b_filter(self, pos, kw, node, env):
+        return AV('iter', elem=TOP())
 
     def b_open(self, pos, kw, node, env):
         return TOP()
@@ -367,6 +384,21 @@ class BuiltinsMixin:
             return self.list_method(recv, name, pos, kw, node, env)
         if k == 'dict':
             return self.dict_method(recv, name, pos, kw, node, env)
+        if k == 'set':
+            if recv.items is not None and name == 'pop' and recv.items:
+                if self.I.weak == 0 and len(recv.items) == 1:
+                    return recv.items.pop()
+                r = join_all(list(recv.items))
+                recv.items = None
+                return r
+            if name in ('add', 'update', 'discard', 'remove', 'pop',
+                        'clear', 'difference_update',
+                        'intersection_update'):
+                recv.items = None
+            return TOP() if name in ('pop',) else \
+                (AV('set') if name in ('union', 'intersection', 'difference',
+                                       'copy', 'symmetric_difference')
+                 else TOP())
         if k == 'gen' or (name in DRAW_METHODS and k in ('top', 'ext')):
             return self.gen_method(recv, name, pos, kw, node, env)
         if k == 'str':
